@@ -18,10 +18,18 @@ TextOf(k, j, font) == LET n == 1 + ((k * 3 + j * 5) % 14) IN
 LineOf(k, j) == LET f == Fonts[((k + j) % Len(Fonts)) + 1] IN [font |-> f, size |-> <<12, 9, 24>>[((k + j) % 3) + 1], text |-> TextOf(k, j, f)]
 PageOf(k, p) == [j \in 1..(1 + ((k + p) % 4)) |-> LineOf(k + 13 * p, j)]
 Case(k) == [pages |-> [p \in 1..(1 + (k % 2)) |-> PageOf(k, p)], cfg |-> Cfgs[((k \div 2) % Len(Cfgs)) + 1], k |-> k]
+\* fixed documents: characters that share one glyph (Greek capital delta / increment, omega / ohm; hyphen-minus / hyphen), runs
+\* of consecutive code points that cross a 256-code block (U+00FE..U+0101)
+Fixed == << [pages |-> << << [font |-> "roboto", size |-> 12, text |-> <<916, 8710, 65, 937, 8486>>], [font |-> "roboto", size |-> 12, text |-> <<254, 255, 256, 257>>] >> >>,
+             cfg |-> Cfgs[1], k |-> 9001],
+            [pages |-> << << [font |-> "sourcesans", size |-> 12, text |-> <<45, 8208, 65, 916, 8710>>], [font |-> "sourcesans", size |-> 10, text |-> <<255, 256, 33, 34, 35, 256, 255>>] >> >>,
+             cfg |-> Cfgs[2], k |-> 9002],
+            [pages |-> << << [font |-> "roboto", size |-> 12, text |-> <<255, 256, 33, 34, 35, 256, 255>>] >> >>, cfg |-> Cfgs[4], k |-> 9003] >>
 VARIABLE done
 Init == done = FALSE
 Next == /\ ~done
         /\ \A j \in 0..(NCases - 1) : PrintT(<<"REPLAY", ToJson(Case(j * Stride))>>)
+        /\ \A j \in 1..Len(Fixed) : PrintT(<<"REPLAY", ToJson(Fixed[j])>>)
         /\ done' = TRUE
 Spec == Init /\ [][Next]_done
 =============================================================================
